@@ -115,6 +115,36 @@ func GenC04(tier string, seed uint64) []*Case {
 			}
 		}
 	}
+	// the initiator's decision when its business itself opens scopes on the SAME context
+	// (local nesting): every outer/inner mode pair, both outcomes, with and without an incoming
+	// transaction; a few three-level chains; coordinator always ok, plus a faulty script
+	nestedAdd := func(t *Scope, e Entry, script []string, d string) {
+		t = cloneScope(t)
+		n := 0
+		number(t, &n)
+		add(&Case{Gen: "enum.nested", Tree: t, Script: script, Default: d, Cancel: -1, Nc: g[0], Nr: g[1], Entry: e})
+	}
+	outs2 := []string{"nil", "err"}
+	for _, mo := range Modes {
+		for _, oo := range outs2 {
+			for _, mi := range Modes {
+				for _, oi := range outs2 {
+					t := &Scope{M: mo, Out: oo, Shared: true, Kids: []*Scope{{M: mi, Out: oi, Shared: true}}}
+					nestedAdd(t, Entry{Role: "UnKnow"}, []string{}, "o")
+					if oi == "nil" {
+						nestedAdd(t, Entry{Role: "UnKnow", Xid: 100}, []string{}, "o")
+					}
+				}
+			}
+			for _, mi := range []string{"Required", "NotSupported", "RequiresNew"} {
+				t3 := &Scope{M: mo, Out: oo, Shared: true, Kids: []*Scope{
+					{M: mi, Out: "nil", Shared: true, Kids: []*Scope{{M: "Required", Out: "nil", Shared: true}}},
+					{M: "Supports", Out: "nil", Shared: true}}}
+				nestedAdd(t3, Entry{Role: "UnKnow"}, []string{}, "o")
+				nestedAdd(t3, Entry{Role: "UnKnow"}, []string{"o", "o", "e"}, "o")
+			}
+		}
+	}
 	// seeded stream: random scripts; 3 in 4 "mostly valid" (well-formed replies dominate)
 	r := hutil.NewRng(seed)
 	for i := 0; i < nrand; i++ {
